@@ -84,7 +84,7 @@ TABLE = [
      ['DataReorderComponentMessage'], (), 'the component order changes', None, None),
     ('glue.core.data.Data', 'update_id',
      either(assigns('self._components'), assigns_prefix('self._pixel_component_ids['), assigns_prefix('self._world_component_ids[')),
-     ['ComponentReplacedMessage'], ('changed',), 'an identifier is replaced', 'changed', None),
+     ['ComponentReplacedMessage'], (), 'an identifier is replaced', None, None),     # dirty flag(s): followed along the paths
     ('glue.core.data.Data', 'update_components', attr_store('_data'),
      ['NumericalDataChangedMessage'], (), 'component values are replaced', None, None),
     ('glue.core.data.Data', 'update_values_from_data', either(attr_store('_data'), assigns('self._shape')),
@@ -319,7 +319,8 @@ def rule_e(ctx, ix):
     if len(loops) != 1:
         raise AnalysisError('Data.find_component_id: category loop not recognised')
     lp = loops[0]
-    cats = unparse(lp.iter)
+    from ..util import expand_locals
+    cats = unparse(expand_locals(f.node, lp.iter))      # `order = (main, derived, ...); for cids in order`
     order = [cats.find(x) for x in ('main_components', 'derived_components', 'coordinate_components', '_externally_derivable_components')]
     ctx.ob(R, f.construct + ' precedence', 'categories are searched in the order main > derived > coordinate > linked',
            all(o >= 0 for o in order) and order == sorted(order),
